@@ -170,6 +170,8 @@ def gen_case(seed, tier='quick'):
             ops[rng.choice(evals)]['fault'] = {
                 'kind': 'interrupt', 'frac': round(rng.uniform(0.05, 1.1), 3)}
     knobs = {'fail_on': rng.choice([1, 2, 3]) if faulty else None,
+             'fail_exc': rng.choice(['oserr', 'keyerr', 'valerr', 'notimpl']),
+             'set_via_evaluator': rng.random() < 0.5,
              'persistent_evaluators': rng.random() < 0.5,
              'reused_object': rng.random() < 0.12,
              'decoy': rng.random() < 0.2}
@@ -226,7 +228,8 @@ def _run(case, fs):
     X = None
     # cells the extract is obliged to contain (others read as blank there)
     focus_closure = closure_of_focus(world, focus)
-    uf = UserFuncs(case['knobs'].get('fail_on'))
+    uf = UserFuncs(case['knobs'].get('fail_on'),
+                   case['knobs'].get('fail_exc', 'oserr'))
     inputs = {'M': dict(world['cells']), 'X': None}
 
     keep = {}
@@ -273,7 +276,12 @@ def _run(case, fs):
             log.append([seq, kind, who, 'skipped: no extract yet'])
             continue
         if kind == 'set':
-            out = outcome_of(model.set_cell_value, op['target'],
+            setter = model.set_cell_value
+            if case['knobs'].get('set_via_evaluator') and \
+                    case['knobs'].get('persistent_evaluators'):
+                setter = evaluator(model).set_cell_value
+                bump('probe:set_through_long_lived_evaluator')
+            out = outcome_of(setter, op['target'],
                              worlds.dec(op['value']))
             a = names.get(op['target'], op['target'])
             inputs[who][a] = op['value']
